@@ -1235,7 +1235,7 @@ pub fn run(opts: &Opts) -> Option<(Stats, Vec<String>, String)> {
                             prop: "C18",
                             kind: "build-cpu-time-grows-geometrically",
                             detail: format!(
-                                "family {fam}: on three consecutive +2-layer steps the CPU time of build() multiplies by >= {GROWTH_RATIO} and by more than (n2/n1)^6, i.e. faster than any polynomial of degree <= 6: (functions, microseconds) = {:?}",
+                                "family {fam}: on three consecutive +2-layer steps (or on two, by twice as much) the CPU time of build() multiplies by >= {GROWTH_RATIO} and by more than (n2/n1)^6, i.e. faster than any polynomial of degree <= 6: (functions, microseconds) = {:?}",
                                 series[..=at].iter().map(|x| (x.0, x.1 / 1000)).collect::<Vec<_>>()
                             ),
                         };
@@ -1286,7 +1286,7 @@ pub fn run(opts: &Opts) -> Option<(Stats, Vec<String>, String)> {
         if total.maxes.get("max_root_paths_in_a_graph").copied().unwrap_or(0) < 1_000_000 {
             floors.push("no graph with >= 10^6 root paths was generated (workload not hostile enough)".to_string());
         }
-        let rule = "case = one build() of a DAG from families whose number of root-to-node paths is exponential (layered w x d complete bipartite, complete DAG, diamond chains, dense random) under shuffled insertion orders; monitor = queue-pop counter hook in RankCalc::calc with an online budget of n^2+n, plus a hook-free count of access-declaration queries (<= 4n^2), plus a hook-free growth monitor: thread CPU time of build() along 8 graph families growing by +2 layers per step must not multiply by >= 3 on three consecutive steps; distinct = distinct graph specs, all non-trivial (n >= 2)".to_string();
+        let rule = "case = one build() of a DAG from families whose number of root-to-node paths is exponential (layered w x d complete bipartite, complete DAG, diamond chains, dense random) under shuffled insertion orders; monitor = queue-pop counter hook in RankCalc::calc with an online budget of n^2+n, plus a hook-free count of access-declaration queries (<= 4n^2), plus a hook-free growth monitor: thread CPU time of build() along 8 graph families growing by +2 layers per step must not grow by >= 3x and faster than (n2/n1)^6 on three consecutive steps (or by twice that on two); distinct = distinct graph specs, all non-trivial (n >= 2)".to_string();
         return Some((total, floors, rule));
     }
 
